@@ -4,7 +4,7 @@
    float outputs (residuals, unit norm, truncation error bound) are checked by harness/c12.py and
    are NOT theorems.  Models: Tensor/StartStop.v, Tensor/MpsDims.v, Tensor/Mps.v, Tensor/Contract.v. *)
 From Coq Require Import List Arith Lia Bool ZArith QArith.
-From QV Require Import Tensor.Sums Tensor.Net Tensor.StartStop Tensor.Contract Tensor.Noop Tensor.MpsDims Tensor.Mps Tensor.Norm.
+From QV Require Import Tensor.Sums Tensor.Net Tensor.StartStop Tensor.Contract Tensor.Noop Tensor.MpsDims Tensor.Mps Tensor.Norm Tensor.MpsAlias.
 Import ListNotations.
 Local Open Scope nat_scope.
 
@@ -87,6 +87,22 @@ Theorem c12_normalised : forall (K : cring) (out : list (tensor K)) (L : tensor 
   gram K (out ++ [L]) 0 0 = r1 K.
 Proof. exact normalised_norm2. Qed.
 
+(* c12_input_not_modified [P-forall on the container model of Tensor/MpsAlias.v]: left_canonical_form works on
+   list(mps) (mps.py:233) and assigns items only through that copy; whatever the sweep assigns, and whatever the
+   caller's container is (a list, or a view [View a idxs] of an object array such as a network column tn[:, c]),
+   every container of the caller reads the same tensor objects afterwards - so "the result represents the same
+   tensor as the input" also holds for the input as the caller sees it after the call.  The second theorem shows
+   that this is a property of list(mps) and not of a slice copy mps[:]: through a view, the caller reads what
+   the sweep assigned.  (That the tensor objects themselves are not written to is checked by harness/c12.py:
+   bit-identical contents after every call, key input-modified.) *)
+Theorem c12_input_not_modified : forall (X : Type) (dflt : X) (h : heap X) (c : container X) (ws : list (nat * X)) (c' : container X),
+  read X dflt (fst (assigns X h (list_copy X dflt h c) ws)) c' = read X dflt h c'.
+Proof. exact list_copy_input_unchanged. Qed.
+Theorem c12_slice_of_view_aliases : forall (X : Type) (dflt : X) (h : heap X) a idxs i v,
+  i < length idxs -> nth i idxs 0 < length (h a) ->
+  nth i (read X dflt (fst (assigns X h (slice_copy X h (View X a idxs)) [(i, v)])) (View X a idxs)) dflt = v.
+Proof. exact slice_copy_view_aliases. Qed.
+
 (* ---- statement that is NOT proved (numerical checking only, harness/c12.py) ------------------- *)
 Definition norm2 (K : cring) (dw_ de_ : list nat) (f : list nat -> list nat -> K) : K :=
   sumt dw_ (fun ws => sumt de_ (fun es => rmul K (f ws es) (f ws es))).
@@ -117,3 +133,4 @@ Print Assumptions c12_start_stop_sound. Print Assumptions c12_start_stop_error. 
 Print Assumptions c12_rcf_mirror. Print Assumptions c12_truncate_identity. Print Assumptions c12_lcf_bond.
 Print Assumptions c12_rcf_bond. Print Assumptions c12_truncate_bond. Print Assumptions c12_lcf_state.
 Print Assumptions c12_lcf_isometry. Print Assumptions c12_normalised.
+Print Assumptions c12_input_not_modified. Print Assumptions c12_slice_of_view_aliases.
